@@ -686,6 +686,14 @@ fn resolve_regions(
     }
 
     // Find total size, and ensure that all regions have names
+    // (a generated name must not be taken already: by a declared field that happens to be
+    // called `_field_N`, or by a zero-sized unnamed field at the same offset)
+    let mut used_names: HashSet<String> = resolved
+        .regions
+        .iter()
+        .filter_map(|r| r.name.as_deref())
+        .map(|n| n.strip_prefix("r#").unwrap_or(n).to_string())
+        .collect();
     let mut size = 0;
     for region in &mut resolved.regions {
         let Some(region_size) = region.size(&semantic.type_registry) else {
@@ -700,9 +708,13 @@ fn resolve_regions(
             is_base: _,
         } = region
         {
+            let mut name = format!("_field_{size:x}");
+            while !used_names.insert(name.clone()) {
+                name.push('_');
+            }
             *region = Region {
                 visibility: Visibility::Private,
-                name: Some(format!("_field_{size:x}")),
+                name: Some(name),
                 doc: None,
                 type_ref: type_ref.clone(),
                 is_base: false,
